@@ -45,7 +45,9 @@ pub struct Case {
     pub pair: u8,
     pub ops: Vec<Op>,
     /// after the schedule: 0 nothing; 1 / 2 a message to the server / client secured with keys of a token that was never
-    /// issued; 3 / 4 a message to the server / client secured with the current keys that names a token id that was never issued
+    /// issued; 3 / 4 a message to the server / client secured with the current keys that names a token id that was never issued;
+    /// 5 the client reconnects (clear_security_token, new connection, new Issue) and a response recorded on the old connection
+    /// is replayed to it
     pub forge: u8,
 }
 
@@ -63,7 +65,7 @@ fn op() -> impl Strategy<Value = Op> {
 }
 
 pub fn case() -> impl Strategy<Value = Case> {
-    (0u8..11, prop::collection::vec(op(), 4..40), prop_oneof![3 => Just(0u8), 1 => 1u8..5]).prop_map(|(pair, ops, forge)| Case { pair, ops, forge })
+    (0u8..11, prop::collection::vec(op(), 4..40), prop_oneof![3 => Just(0u8), 1 => 1u8..5, 1 => Just(5u8)]).prop_map(|(pair, ops, forge)| Case { pair, ops, forge })
 }
 
 #[derive(Clone, Debug, PartialEq)]
@@ -182,24 +184,54 @@ impl World {
             c_built_total: 0,
             last_error: None,
         };
-        // the Issue, through the same code as everything after it
-        w.c_open(SecurityTokenRequestType::Issue);
-        w.c_flush();
-        if !matches!(w.s_recv(), Some(true)) {
-            setup_failure(&format!("the server rejected the OpenSecureChannel(Issue) with {:?} ({:?}/{:?})", w.last_error, policy, mode));
+        w.issue();
+        w
+    }
+
+    /// the Issue, through the same code as everything after it
+    fn issue(&mut self) {
+        self.c_open(SecurityTokenRequestType::Issue);
+        self.c_flush();
+        if !matches!(self.s_recv(), Some(true)) {
+            setup_failure(&format!("the server rejected the OpenSecureChannel(Issue) with {:?} ({:?}/{:?})", self.last_error, self.policy, self.mode));
         }
-        w.s_write();
-        if !matches!(w.c_recv(), Some(true)) {
+        self.s_write();
+        if !matches!(self.c_recv(), Some(true)) {
             setup_failure("the client rejected the OpenSecureChannel response of the Issue");
         }
-        if w.c_renew_end() != Some(true) {
+        if self.c_renew_end() != Some(true) {
             setup_failure("the client could not finish the Issue");
         }
-        w.c_gen = 0;
-        w.s_gen = 0;
-        w.c_seen = 0;
-        w.s_seen = 0;
-        w
+        self.c_gen = 0;
+        self.s_gen = 0;
+        self.c_seen = 0;
+        self.s_seen = 0;
+    }
+
+    /// What the client does when its connection is gone: the same channel object is cleared (`clear_security_token`, as
+    /// AsyncSecureChannel::connect does), a new connection is made - here a new server transport - and a token is issued on it.
+    fn reconnect(&mut self) {
+        let server_arc = srv::worker_server(false);
+        self.server = server_arc.new_transport();
+        let (r, _) = self.server.verif_process_hello(srv::Peer::hello(), 65535, 65535);
+        if r.is_err() {
+            setup_failure("hello rejected on the second connection");
+        }
+        self.ssc = self.server.verif_secure_channel();
+        self.csc.write().clear_security_token();
+        self.t = VerifTransport::new(self.csc.clone(), 50, 20, 64);
+        self.sb = SendBuffer::new(65535, 0, 0);
+        self.s_seq = 1;
+        self.s_pending.clear();
+        self.c_built.clear();
+        self.c_built_total = 0;
+        self.callbacks.clear();
+        self.c2s.clear();
+        self.s2c.clear();
+        self.c_renew_outstanding = false;
+        self.c_opn_response = None;
+        self.issued.clear();
+        self.issue();
     }
 
     fn c_open(&mut self, ty: SecurityTokenRequestType) {
@@ -500,6 +532,47 @@ fn run_inner(ctx: &Ctx, c: &Case, supported_only: bool) -> PResult {
     if c.forge == 0 {
         return Ok(());
     }
+    if c.forge == 5 {
+        if !secure {
+            // nothing authenticates a chunk without a security policy
+            return Ok(());
+        }
+        // everything still under way is delivered, renewals are finished
+        for _ in 0..60 {
+            let mut progress = ctx.guard(|| w.c_flush())?;
+            progress |= ctx.guard(|| w.s_recv())?.is_some();
+            progress |= ctx.guard(|| w.s_write())?;
+            progress |= ctx.guard(|| w.c_recv())?.is_some();
+            progress |= ctx.guard(|| w.c_renew_end())?.is_some();
+            if !progress {
+                break;
+            }
+        }
+        // a response of the old connection, as an eavesdropper records it
+        ctx.guard(|| {
+            w.c_submit(request(), Kind::Msg);
+            w.c_flush();
+            w.s_recv();
+            w.s_write()
+        })?;
+        let Some(old) = w.s2c.back().filter(|x| x.kind == Kind::Msg).map(|x| x.bytes.clone()) else { return Ok(()) };
+        let old_token = wire_token(&old);
+        let _ = ctx.guard(|| w.c_recv())?;
+        ctx.guard(|| w.reconnect())?;
+        ctx.class("reconnect_then_replay_of_an_old_response");
+        if renewals > 0 {
+            ctx.class("reconnect_after_a_renewal");
+        }
+        ctx.nontrivial();
+        let accepted = ctx.guard(|| w.t.handle_incoming_message(Message::Chunk(MessageChunk { data: old.clone() })))?.is_ok();
+        if accepted {
+            return ctx.fail(
+                "replayed-chunk-of-an-earlier-connection-accepted/client",
+                format!("after clear_security_token and a new Issue (token ids {:?}) the client accepted a response secured on the previous connection under token id {:?} ({:?}/{:?})", w.issued, old_token, w.policy, w.mode),
+            );
+        }
+        return Ok(());
+    }
     let to_server = c.forge % 2 == 1;
     let current_keys = c.forge >= 3;
     let bytes = ctx.guard(|| forged(&w, to_server, current_keys))?;
@@ -561,7 +634,7 @@ fn judge_delivery(ctx: &Ctx, step: usize, receiver: &str, kind: &Kind, gen: usiz
 pub fn def() -> PropDef {
     PropDef {
         id: "C14",
-        rule: "schedules of 4..40 steps over {client builds a request chunk (optionally securing it at once), client secures its oldest built chunk, real begin_issue_or_renew_secure_channel(Renew), server reads a chunk (real TcpTransport::process_chunk), server writer secures the oldest queued response with what the channel holds at that moment, client reads a chunk (real TransportState), real end_issue_or_renew_secure_channel}, FIFO wires in both directions, the 11 policy/mode pairs, up to 6 requests and 2 renewals after a real Issue; optionally followed by a forged message to either side (foreign keys, or the current keys with a token id that was never issued); oracle: an OPN request/response is accepted; a message is accepted unless the receiver had already received a message under a newer token than the one it was secured under; a forged message is rejected; part supported_schedules keeps to the schedules the single key slot can serve (the client sends nothing during a renewal, the server writes every queued response before it handles the Renew, the client ends the renewal before it reads on) so that the search continues behind the known finding; non-trivial = a message delivered to a receiver at another token generation, or a forged message, or a renewal with messages; distinct = distinct case",
+        rule: "schedules of 4..40 steps over {client builds a request chunk (optionally securing it at once), client secures its oldest built chunk, real begin_issue_or_renew_secure_channel(Renew), server reads a chunk (real TcpTransport::process_chunk), server writer secures the oldest queued response with what the channel holds at that moment, client reads a chunk (real TransportState), real end_issue_or_renew_secure_channel}, FIFO wires in both directions, the 11 policy/mode pairs, up to 6 requests and 2 renewals after a real Issue; optionally followed by a forged message to either side (foreign keys, or the current keys with a token id that was never issued), or by a reconnect of the client (clear_security_token, new connection, new Issue) and the replay of a response recorded on the old connection; oracle: an OPN request/response is accepted; a message is accepted unless the receiver had already received a message under a newer token than the one it was secured under; a forged or replayed message is rejected; part supported_schedules keeps to the schedules the single key slot can serve (the client sends nothing during a renewal, the server writes every queued response before it handles the Renew, the client ends the renewal before it reads on) so that the search continues behind the known finding; non-trivial = a message delivered to a receiver at another token generation, or a forged message, or a renewal with messages; distinct = distinct case",
         assumptions: &["single-chunk messages; wires are FIFO (TCP)", "the server's writer is imitated by Chunker::encode + apply_security on the transport's own SecureChannel at the scheduled moment, which is what MessageWriter does", "token lifetime / expiry is not part of the schedules"],
         abort_possible: false,
         parts: |tier| {
